@@ -267,6 +267,21 @@ def write_rules(ctx, facts, rep):
         vals[0][3][0][1][2][0] == ("arg", 2, "password") and not any(t_ and t_["k"] == "switch" for t_ in (wd.term(b_) for b_ in range(len(wd.blocks)) if not wd.blocks[b_]["cleanup"]))
     ok &= rep.check(good, rule, "option=Some(derive(password))", where(wd, wd.span), "encrypt_with = Some(derive(password)), unconditionally",
                     "with_deprecated_encryption sets encrypt_with to %s: some passwords leave the entry unencrypted" % [show(v)[:80] for v in vals])
+    # the public spelling of the option (unstable::write::FileOptionsExt) hands options and password on, untouched: every byte string
+    # is a password -- one with a NUL inside, too (the reader derives its keys from all of it)
+    pubs = [g for g in facts.fns if g.impl_trait and g.impl_trait.endswith("FileOptionsExt") and g.path.endswith("::with_deprecated_encryption")]
+    good = len(pubs) == 1
+    if good:
+        g = pubs[0]
+        exg = Ex(g)
+        cs = calls_matching(g, r"^write::FileOptions::with_deprecated_encryption$")
+        good = len(cs) == 1 and not any(t_ and t_["k"] == "switch" for t_ in (g.term(b_) for b_ in range(len(g.blocks)) if not g.blocks[b_]["cleanup"])) and \
+            len([1 for _, t_ in g.calls()]) == 1
+        if good:
+            a_ = [norm(exg.operand(x, (cs[0][0], None))) for x in cs[0][1]["args"]]
+            good = len(a_) == 2 and a_[0][0] == "arg" and a_[0][1] == 1 and a_[1][0] == "arg" and a_[1][1] == 2
+    ok &= rep.check(good, rule, "public-option:delegates-verbatim", where(pubs[0], pubs[0].span) if pubs else "", "FileOptionsExt::with_deprecated_encryption(self, password) = self.with_deprecated_encryption(password)",
+                    "the public with_deprecated_encryption does not hand the caller's password on unchanged: the keys are derived from something else than the password the reader will be given")
     se = facts.one(ZW + "start_entry$")
     ex = Ex(se)
     for bi, si, s, fl in aggregates(se, r"types::ZipFileData$"):
